@@ -360,6 +360,16 @@ def explore(ctx, oracles, frame_mode=False):
     for i in range(0, len(bigs), 200):
         batches.append(bigs[i:i + 200])
     stats["big_cases"] = nbig
+    # 4. many laps: the lap counters are compared for equal / next lap only, so a counter narrower than size_t goes wrong when it rolls
+    #    over — one long history on a 3-byte ring with more than 2^16 laps (one lap per write), two readers, partial consumption now and then
+    if not frame_mode:
+        laps = ["join", "join", "runmap 0 0", "runmap 1 0"]
+        for i in range(140000 if thorough else 70000):
+            laps += ["wmap 2", "wcommit", "rmap 0", "runmap 0 %d" % (1 if i % 977 == 0 else 99), "rmap 1", "runmap 1 99"]
+            if i % 977 == 0:
+                laps += ["rmap 0", "runmap 0 99"]
+        batches.append([(3, laps)])
+        stats["lap_run_ops"] = len(laps)
     samples = []
     for b in batches:
         problems = run_batch(ctx, exe, drv, b, stats)
@@ -435,7 +445,7 @@ def explore(ctx, oracles, frame_mode=False):
     ctx.cov["rule"] = ("cases = operation scripts for channel.c: (a) every well-formed sequence up to length %d over "
                        "{wmap n, wcommit, wabort, join, rmap i, runmap i k[, accept b]} for cap 2..5 and <=2 readers (%d cases, exhaustive), "
                        "(b) %d seeded random histories of 300+ ops for caps %s with 1..8 readers, (b') %d histories on rings of 2..8 GiB "
-                       "(address space only; write sizes, consumed counts and bookmark distances on both sides of 2^31 and 2^32; interval oracles), (c) the corpus. A case is "
+                       "(address space only; write sizes, consumed counts and bookmark distances on both sides of 2^31 and 2^32; interval oracles), (b'') one history of more than 2^16 laps on a 3-byte ring, (c) the corpus. A case is "
                        "non-trivial if it takes at least one wrap / lap-change / roll-over / blocking / refusal branch; distinct = distinct "
                        "(cap, branch set, first 40 ops)." % (depth, stats.get("exhaustive_cases", 0), nrand, caps, stats.get("big_cases", 0)))
     ctx.cov["exhaustive"] = False
